@@ -35,8 +35,11 @@ THEOREMS = [
     "C18_in_scope_satisfiable",
 ]
 RULE = ("every one of the 1680 configurations (argument kind x --type x dereference x filename x recursive x "
-        "verify x exclude) on each generated fixture set (random file contents, names, tree shapes, link targets, "
-        "URL, git repository with commit/tag/branch); non-trivial = at least 2 non-default options; distinct = "
+        "verify x exclude) on each generated fixture set (random file contents, names - every second set with names "
+        "that are not valid UTF-8, for the arguments too -, tree shapes with identical files/directories and an inner "
+        "symlink, relative/absolute link targets, URL schemes, git repository with commits, branch, lightweight / "
+        "annotated / tree tags, packed or loose refs), plus 30 sampled configurations per set through a real "
+        "`python -m swh.model.cli` subprocess; non-trivial = at least 2 options away from their default; distinct = "
         "distinct (fixture seed, configuration, runner)")
 TRUSTED = ["click option parsing, os.path.*, os.scandir, dulwich and git are modelled by a table per argument kind "
            "(model/Cli.v: isfile/isdir/islink/lstat/stat/urlparse scheme/is-a-git-repository), not verified",
@@ -44,13 +47,16 @@ TRUSTED = ["click option parsing, os.path.*, os.scandir, dulwich and git are mod
            "Origin.swhid, Snapshot.swhid): C18 is about which object the command designates and what it prints"]
 ASSUMPTIONS = ["exactly one OBJECT argument; no file named '-' in the working directory; the argument of kind url has "
                "a scheme and is not an existing path; distinct designated objects of one fixture set have distinct "
-               "identifiers (checked when the fixtures are built)",
+               "identifiers (asserted when the fixtures are built)",
                "explicit --type: in scope when it equals the type of the designated object (content for file, "
-               "link->file, stdin and for a link that is not followed; directory for dir, link->dir, git repository; "
-               "origin for url; snapshot for git repository); '-t directory --no-dereference <link->dir>' designates "
-               "the directory behind the link",
+               "link->file, stdin and for any link that is not followed; directory for dir, followed link->dir, git "
+               "repository; origin for url; snapshot for git repository); '-t directory --no-dereference <link>' and "
+               "an explicit non-content type on '-' are out of scope (still compared with the model)",
                "verification takes a core SWHID: an origin has none, so '--verify swh:1:ori:...' is a usage error "
-               "(documented by the option's error message); recursion is documented as disabled on a non-directory"]
+               "(documented by the option's error message); --recursive is documented (warning) as disabled on a "
+               "non-directory; the stricter reading is theorem C18_strict_reading_differs",
+               "in-process runs give click's capture stream the surrogateescape error handler that a real process's "
+               "stdout has under the C/POSIX locale; the subprocess runs use the real stream"]
 CASE_TIMEOUT = 60
 
 KINDS = ["file", "dir", "linkfile", "linkdir", "stdin", "url", "gitrepo"]
@@ -203,7 +209,9 @@ def build_fixture(fxspec):
 
         def top(prefix):
             while True:
-                n = _rname(rng, nonutf8_arg, prefix)
+                n = _rname(rng, False, prefix)
+                if nonutf8_arg:
+                    n += rng.choice([b"\xff", b"\xe9t\xe9", b"\xc3\x28", b"\x80x"])
                 if n not in used and n != b"-":
                     used.add(n)
                     return os.path.join(root, n)
@@ -223,7 +231,7 @@ def build_fixture(fxspec):
         fx["linkdir"] = top(b"ld")
         tgt = os.path.basename(fx["linkdir_target"]) if rng.random() < 0.7 else fx["linkdir_target"]
         os.symlink(tgt, fx["linkdir"])
-        fx["stdin"] = _rdata(rng)
+        fx["stdin"] = rng.choice([b"", b" ", b"\n"]) + _rdata(rng) + rng.choice([b"\n", b" \n", b"\r\n", b"\x00", b"\t"])
         scheme = rng.choice(["https", "http", "git", "ssh", "git+ssh", "svn", "ftp", "file"])
         fx["url"] = "%s://host%d.example.org/%s" % (scheme, rng.randrange(1000), rng.choice(["a/b.git", "x", "p?q=1#f", "é"]))
         # git repository (non bare): two commits, a branch, a lightweight and an annotated tag, a tag of a tree
@@ -283,7 +291,6 @@ def _dir_id(path, excluded):
 def _snapshot_id(repo):
     """the snapshot of a git repository, built from git's own listing of the references (not through dulwich)"""
     from swh.model import model
-    kinds = {"commit": model.SnapshotTargetType.REVISION if hasattr(model, "SnapshotTargetType") else None}
     tt = model.SnapshotTargetType if hasattr(model, "SnapshotTargetType") else model.TargetType
     kinds = {"commit": tt.REVISION, "tag": tt.RELEASE, "tree": tt.DIRECTORY, "blob": tt.CONTENT}
     branches = {}
@@ -428,18 +435,34 @@ def canon_run(exit_code, stdout, exc):
 
 
 def run_inprocess(args, stdin):
+    """click's CliRunner.  Its capture stream for stdout is a strict UTF-8 writer, whereas the standard output of a
+    real process under the C/POSIX locale (the only ones on this machine) uses surrogateescape; the capture stream
+    is given the same error handler so that printing a file name that is not valid UTF-8 behaves as in the real
+    command (the subprocess runs check the real thing)."""
+    import click.testing
     from click.testing import CliRunner
     from swh.model import cli
     import logging
+
+    base = click.testing._NamedTextIOWrapper
+
+    class Tolerant(base):
+        def __init__(self, buffer, name, mode, **kw):
+            if mode == "w":
+                kw.setdefault("errors", "surrogateescape")
+            super().__init__(buffer, name, mode, **kw)
+
     logging.disable(logging.CRITICAL)
+    click.testing._NamedTextIOWrapper = Tolerant
     try:
         r = CliRunner().invoke(cli.identify, args, input=stdin)
     finally:
+        click.testing._NamedTextIOWrapper = base
         logging.disable(logging.NOTSET)
     exc = None
     if r.exception is not None and not isinstance(r.exception, SystemExit):
         exc = type(r.exception).__name__
-    return canon_run(r.exit_code, r.stdout, exc)
+    return canon_run(r.exit_code, r.stdout_bytes.decode("utf-8", "surrogateescape").replace("\r\n", "\n"), exc)
 
 
 def run_subprocess(args, stdin, cwd):
@@ -486,6 +509,9 @@ def expected(fx, cfg, outcome):
     parts = outcome.split(",")
     if parts[0] == "usage":
         return {"exit": 2, "lines": [], "usage": True}
+    if cfg[1] == "origin" and k not in ("stdin", "url") and fx["ids"]["origin:" + k] is None:
+        # out of scope: -t origin <path that is not valid UTF-8>; Origin() refuses such a URL (not in the table)
+        return {"exit": 1, "lines": [], "exc": "UnicodeEncodeError"}
     if parts[0] == "exit0":
         return {"exit": 0, "lines": []}
     if parts[0] == "exit1":
@@ -497,8 +523,6 @@ def expected(fx, cfg, outcome):
     arg = "-" if k == "stdin" else fx["url"] if k == "url" else os.fsdecode(fx[k])
     if not listing:
         i = obj_id(fx, k, obj, excluded)
-        if i is None:       # -t origin <path that is not valid UTF-8> (out of scope): Origin() refuses the URL
-            return {"exit": 1, "lines": [], "exc": "UnicodeEncodeError"}
         return {"exit": 0, "lines": [i + "\t" + arg if shown else i], "other_lines": 0}
     ids, pairs = tree_nodes(fx, k, excluded)
     return {"exit": 0, "listing": True, "ids": ids, "pairs": pairs, "shown": shown, "other_lines": 0}
@@ -543,15 +567,16 @@ def diff(obs, exp):
 
 # ------------------------------------------------------------------ harness API
 def gen(rng, tier):
-    nsets = 1 if tier == "quick" else 10
+    nsets = 2 if tier == "quick" else 10
     cases = []
     cfgs = all_cfgs()
     for s in range(nsets):
         fx = {"seed": rng.randrange(1, 10 ** 9)}
-        if tier == "thorough" and s % 2 == 1:
-            fx["nonutf8"] = 1
-        if tier == "thorough" and s % 3 == 2:
-            fx["explicit_defaults"] = 1
+        if s % 2 == 1:
+            fx["nonutf8"] = 1            # names inside the trees and link texts that are not valid UTF-8
+            fx["nonutf8_arg"] = 1        # ... and the names of the arguments themselves
+        if s % 3 == 2 or (tier == "quick" and s == 1):
+            fx["explicit_defaults"] = 1  # --dereference / --filename / --type auto spelled out
             fx["explicit_auto"] = 1
         for c in cfgs:
             cases.append({"fx": fx, "cfg": c})
@@ -622,9 +647,24 @@ def shrink(c):
 
 
 def pre_checks(ctx):
-    """the Python enumeration of configurations is the model's all_cfgs"""
+    """(1) the Python enumeration of configurations is the model's all_cfgs;
+    (2) outside the one-argument table: several OBJECTS print one line each in order, and --verify with two
+    objects is the documented usage error ("verification requires a single object")"""
     bad = []
     resp = core.run_driver(ID, ["count"])
     if resp != ["ok %d" % len(all_cfgs())]:
         bad.append(("table:all_cfgs", "driver enumerates %s configurations, the harness %d" % (resp, len(all_cfgs()))))
+    try:
+        fx = get_fixture({"seed": 18003})
+        ids = fx["ids"]
+        f, lf, d = os.fsdecode(fx["file"]), os.fsdecode(fx["linkfile"]), os.fsdecode(fx["dir"])
+        r = run_inprocess(["--no-dereference", f, lf, d], None)
+        want = sorted([ids["pathcontent"] + "\t" + f, ids["linktext:linkfile"] + "\t" + lf, ids["dir:dir:0"] + "\t" + d])
+        if r["exit"] != 0 or r["lines"] != want:
+            bad.append(("correspondence:several-objects", "identify --no-dereference f lf d: %r, expected %r" % (r, want)))
+        r = run_inprocess(["--verify", ids["pathcontent"], f, lf], None)
+        if r["exit"] != 2 or r.get("exc") or r["lines"]:
+            bad.append(("correspondence:verify-two-objects", "identify --verify ID f lf: %r, expected a usage error" % (r,)))
+    except Exception as e:
+        bad.append(("correspondence:several-objects", "pre-check crashed: %r" % (e,)))
     return bad
